@@ -16,3 +16,14 @@ package alg
 //@   loop 0: invariant native.scanEnd(string(data), 0) <= p && p <= n
 //@   loop 0: invariant forall k int :: native.scanEnd(string(data), 0) <= k && k < p ==> isSpace(data[k])
 //@   loop 0: decreases n - p
+
+// IsValidNumber: memory safety and termination for every string (the json.Number
+// text of a user value is arbitrary); an invalid literal must yield an error,
+// never a panic (C04, C07).
+//@ func IsValidNumber props C04,C19
+//@   loop 0: invariant true
+//@   loop 0: decreases len(s)
+//@   loop 1: invariant true
+//@   loop 1: decreases len(s)
+//@   loop 2: invariant true
+//@   loop 2: decreases len(s)
